@@ -275,6 +275,9 @@ func (wr *Writer) tightMap(rv reflect.Value, si *sinfo) {
 	comma := false
 	for _, kv := range keys {
 		rm := rv.MapIndex(kv)
+		if kv.Kind() != reflect.String { // a key of another type is written as its text, as alt.Decompose and pretty write it
+			kv = reflect.ValueOf(fmt.Sprint(kv.Interface()))
+		}
 		if rm.Kind() == reflect.Ptr {
 			if rm.IsNil() {
 				if wr.OmitNil {
